@@ -317,6 +317,8 @@ func (ew *envWorld) classValue(e *envelopeParts, f, c string) (ipld.Node, bool, 
 			return str("x"), true, nil
 		case "oob":
 			return listOf(listOf(str("=="), str(".x"), basicnode.NewInt(1<<53))), true, nil
+		case "oobneg":
+			return listOf(listOf(str(">"), str(".x"), basicnode.NewInt(-(1 << 53)))), true, nil
 		case "u64":
 			return listOf(listOf(str("=="), str(".x"), bigU64)), true, nil
 		}
@@ -328,6 +330,8 @@ func (ew *envWorld) classValue(e *envelopeParts, f, c string) (ipld.Node, bool, 
 			return listOf(basicnode.NewInt(1)), true, nil
 		case "oob":
 			return mapNode(map[string]ipld.Node{"x": listOf(basicnode.NewInt(1 << 53))}), true, nil
+		case "oobneg":
+			return mapNode(map[string]ipld.Node{"x": mapNode(map[string]ipld.Node{"y": basicnode.NewInt(-(1 << 53))})}), true, nil
 		case "u64":
 			return mapNode(map[string]ipld.Node{"x": bigU64}), true, nil
 		}
@@ -364,6 +368,8 @@ func (ew *envWorld) classValue(e *envelopeParts, f, c string) (ipld.Node, bool, 
 			return str("soon"), true, nil
 		case "oob":
 			return basicnode.NewInt(1 << 53), true, nil
+		case "oobneg":
+			return basicnode.NewInt(-(1 << 53)), true, nil
 		case "u64":
 			return bigU64, true, nil
 		}
@@ -476,7 +482,10 @@ func decodeAll(family string, node ipld.Node, cborBytes, jsonBytes []byte) []dec
 	switch family {
 	case "generic":
 		add("token.FromSealed", func() (token.Token, error) { t, _, e := token.FromSealed(cborBytes); return t, e })
-		add("token.FromSealedReader", func() (token.Token, error) { t, _, e := token.FromSealedReader(bytes.NewReader(cborBytes)); return t, e })
+		add("token.FromSealedReader", func() (token.Token, error) {
+			t, _, e := token.FromSealedReader(bytes.NewReader(cborBytes))
+			return t, e
+		})
 		add("token.FromDagCbor", func() (token.Token, error) { return token.FromDagCbor(cborBytes) })
 		add("token.FromDagCborReader", func() (token.Token, error) { return token.FromDagCborReader(bytes.NewReader(cborBytes)) })
 		add("token.Decode(dagcbor)", func() (token.Token, error) { return token.Decode(cborBytes, dagcbor.Decode) })
@@ -486,7 +495,10 @@ func decodeAll(family string, node ipld.Node, cborBytes, jsonBytes []byte) []dec
 		}
 	case "dlg":
 		add("delegation.FromSealed", func() (token.Token, error) { t, _, e := delegation.FromSealed(cborBytes); return t, e })
-		add("delegation.FromSealedReader", func() (token.Token, error) { t, _, e := delegation.FromSealedReader(bytes.NewReader(cborBytes)); return t, e })
+		add("delegation.FromSealedReader", func() (token.Token, error) {
+			t, _, e := delegation.FromSealedReader(bytes.NewReader(cborBytes))
+			return t, e
+		})
 		add("delegation.FromDagCbor", func() (token.Token, error) { return delegation.FromDagCbor(cborBytes) })
 		add("delegation.FromDagCborReader", func() (token.Token, error) { return delegation.FromDagCborReader(bytes.NewReader(cborBytes)) })
 		add("delegation.Decode(dagcbor)", func() (token.Token, error) { return delegation.Decode(cborBytes, dagcbor.Decode) })
@@ -499,7 +511,10 @@ func decodeAll(family string, node ipld.Node, cborBytes, jsonBytes []byte) []dec
 		}
 	case "inv":
 		add("invocation.FromSealed", func() (token.Token, error) { t, _, e := invocation.FromSealed(cborBytes); return t, e })
-		add("invocation.FromSealedReader", func() (token.Token, error) { t, _, e := invocation.FromSealedReader(bytes.NewReader(cborBytes)); return t, e })
+		add("invocation.FromSealedReader", func() (token.Token, error) {
+			t, _, e := invocation.FromSealedReader(bytes.NewReader(cborBytes))
+			return t, e
+		})
 		add("invocation.FromDagCbor", func() (token.Token, error) { return invocation.FromDagCbor(cborBytes) })
 		add("invocation.FromDagCborReader", func() (token.Token, error) { return invocation.FromDagCborReader(bytes.NewReader(cborBytes)) })
 		add("invocation.Decode(dagcbor)", func() (token.Token, error) { return invocation.Decode(cborBytes, dagcbor.Decode) })
@@ -704,3 +719,143 @@ func init() {
 }
 
 func getenv(k string) string { return os.Getenv(k) }
+
+// ---------------------------------------------------------------------------------------------
+// byte-level corruption of honestly sealed tokens (code -> spec)
+
+func sealedSamples(seed int64, algs []string) (out []struct {
+	name   string
+	typ    string
+	sealed []byte
+	fields map[string]ipld.Node
+}, err error) {
+	w := newWorld(seed, algs)
+	for i, alg := range algs {
+		w.algs = []string{alg}
+		iss, err := w.principal(fmt.Sprintf("I%d", i))
+		if err != nil {
+			return nil, err
+		}
+		aud, err := w.principal(fmt.Sprintf("A%d", i))
+		if err != nil {
+			return nil, err
+		}
+		pol, _ := policy.FromDagJson(`[["==", ".x", 1], ["like", ".s", "a*"]]`)
+		dlg, err := delegation.New(iss.id, aud.id, command.MustParse("/a/b"), pol, delegation.WithSubject(iss.id),
+			delegation.WithMeta("k", "v"), delegation.WithNotBeforeIn(-time.Hour), delegation.WithExpirationIn(time.Hour))
+		if err != nil {
+			return nil, err
+		}
+		ds, _, err := dlg.ToSealed(iss.priv)
+		if err != nil {
+			return nil, err
+		}
+		_, df, err := fieldsOf(dlg)
+		if err != nil {
+			return nil, err
+		}
+		c1, c2 := missingCid(1), missingCid(2)
+		inv, err := invocation.New(iss.id, aud.id, command.MustParse("/a/b"), []cid.Cid{c1}, invocation.WithAudience(iss.id),
+			invocation.WithArgument("x", 1), invocation.WithArgument("l", []string{"a", "b"}), invocation.WithMeta("k", 7),
+			invocation.WithExpirationIn(time.Hour), invocation.WithCause(&c2))
+		if err != nil {
+			return nil, err
+		}
+		is, _, err := inv.ToSealed(iss.priv)
+		if err != nil {
+			return nil, err
+		}
+		_, ifl, err := fieldsOf(inv)
+		if err != nil {
+			return nil, err
+		}
+		out = append(out, struct {
+			name   string
+			typ    string
+			sealed []byte
+			fields map[string]ipld.Node
+		}{"dlg/" + alg, "dlg", ds, df}, struct {
+			name   string
+			typ    string
+			sealed []byte
+			fields map[string]ipld.Node
+		}{"inv/" + alg, "inv", is, ifl})
+	}
+	return out, nil
+}
+
+func init() {
+	// n > 0: n random single mutations per sealed token; n <= 0: EVERY single-bit flip and
+	// every 1-byte insertion / deletion / substitution offset of every token.
+	drivers["envbytes"] = func(seed int64, n int, emit func(any)) error {
+		algs := []string{"ed25519", "secp256k1", "p256"}
+		if n <= 0 {
+			algs = append(algs, "p384", "p521")
+		}
+		toks, err := sealedSamples(seed, algs)
+		if err != nil {
+			return err
+		}
+		rng := rand.New(rand.NewSource(seed))
+		try := func(name, typ, kind string, off, bit int, orig, mut []byte, fields map[string]ipld.Node) {
+			accepted, same := false, true
+			var who string
+			for _, fam := range []string{"generic", typ} {
+				for _, r := range decodeAll(fam, nil, mut, nil) {
+					if r.err != nil {
+						continue
+					}
+					accepted = true
+					_, dec, err := fieldsOf(r.tok)
+					if err != nil || sameFields(dec, fields) != "" {
+						same = false
+						who = r.name
+					}
+				}
+			}
+			emit(map[string]any{"ev": "Corrupt", "tok": name, "kind": kind, "off": off, "bit": bit, "len": len(orig),
+				"accepted": accepted, "same": same, "decoder": who})
+		}
+		for _, tk := range toks {
+			b := tk.sealed
+			one := func(kind string, off, bit int) {
+				var m []byte
+				switch kind {
+				case "flip":
+					m = append([]byte{}, b...)
+					m[off] ^= 1 << uint(bit)
+				case "subst":
+					m = append([]byte{}, b...)
+					m[off] = byte(rng.Intn(256))
+					if m[off] == b[off] {
+						m[off]++
+					}
+				case "insert":
+					m = append(append(append([]byte{}, b[:off]...), byte(rng.Intn(256))), b[off:]...)
+				case "delete":
+					m = append(append([]byte{}, b[:off]...), b[off+1:]...)
+				case "truncate":
+					m = append([]byte{}, b[:off]...)
+				}
+				try(tk.name, tk.typ, kind, off, bit, b, m, tk.fields)
+			}
+			if n > 0 {
+				kinds := []string{"flip", "flip", "flip", "subst", "insert", "delete", "truncate"}
+				for i := 0; i < n; i++ {
+					one(kinds[rng.Intn(len(kinds))], rng.Intn(len(b)), rng.Intn(8))
+				}
+				continue
+			}
+			for off := range b {
+				for bit := 0; bit < 8; bit++ {
+					one("flip", off, bit)
+				}
+				one("subst", off, 0)
+				one("insert", off, 0)
+				one("delete", off, 0)
+				one("truncate", off, 0)
+			}
+		}
+		return nil
+	}
+}
